@@ -79,7 +79,14 @@ func c20Program(seed uint64, steps int) *transcript {
 	docOf := func() ([]byte, bool) {
 		size := []int{30, 300, 3000, 9000, 40000}[r.Intn(5)]
 		bad := r.Chance(1, 6)
-		d := gen.Doc(r.Split(), gen.DocCfg{Size: size, MaxDepth: 4, MaxFan: 6, WS: r.Intn(2), Esc: 25, LongStr: 10, DupKeys: true})
+		var d []byte
+		if r.Chance(1, 12) {
+			// index-dense and large: 15..60 index buffers, i.e. more than the hand-off channel of one
+			// parser holds; with more such parses in flight than there are processors
+			d = gen.Aperiodic(r.Split(), 1408*3/2*r.Range(15, 60), 2)
+		} else {
+			d = gen.Doc(r.Split(), gen.DocCfg{Size: size, MaxDepth: 4, MaxFan: 6, WS: r.Intn(2), Esc: 25, LongStr: 10, DupKeys: true})
+		}
 		if bad {
 			d = gen.Mutate(r.Split(), d)
 		}
